@@ -21,6 +21,24 @@ impl<T: Eq + PartialOrd + Send + Sync, A: Clone> Graph<T, A> {
     }
 }
 
+// [C02.coherence.index_members_in_range] what the successor / predecessor node queries require follows from the coherence invariant
+pub proof fn lemma_index_members_from_coherence<T: Eq + PartialOrd + Send + Sync, A: Clone>(g: Graph<T, A>)
+    requires
+        g.wf_estore(), g.wf_index_sets(),
+    ensures
+        g.wf_index_members(),
+{
+    assert forall|i: usize, j: usize| #[trigger] g.succ_set(i).contains(j) implies j < g.n() by {
+        assert(g.linked(i, j));
+        let c = g.canon(i, j);
+        assert(g.has_pair(c.0, c.1));
+        assert(c == (i, j) || c == (j, i));
+    }
+    assert forall|i: usize, j: usize| #[trigger] g.pred_set(i).contains(j) implies j < g.n() by {
+        assert(g.has_pair(j, i));
+    }
+}
+
 // [C02.coherence.index_sets_preserved_by_add_edge]
 pub proof fn lemma_index_sets_preserved_by_add_edge<T: Eq + PartialOrd + Send + Sync, A: Clone>(pre: Graph<T, A>, e: Edge<T, A>, post: Graph<T, A>, r: Result<(), Error>)
     requires
